@@ -194,11 +194,22 @@ def main():
         key = (r["part"], " ".join(map(str, r["case"]["args"])), s["sig"])
         if nontrivial:
             sigs[key] = 1
+    # memory-order profile: every atomic site (function, kind, cell) must be at least as strong
+    # as recorded for it (tools/mo_profile/<id>.json) - a weakened order changes no x86 code
+    # and no interleaving, so only this comparison can see it
+    mo_obs = {}
+    for r in results:
+        for k, v in (r.get("sig") or {}).get("mo", {}).items():
+            mo_obs.setdefault(k, set()).update(v)
+    if os.environ.get("VERIF_WRITE_MO_PROFILE"):
+        os.makedirs(os.path.dirname(vlib.mo_profile_path(pid)), exist_ok=True)
+        json.dump({k: sorted(v) for k, v in sorted(mo_obs.items())}, open(vlib.mo_profile_path(pid), "w"), indent=1)
+    mo_bad = vlib.mo_compare(pid, mo_obs)
     validated = sum(1 for r in results if r["drv"].get("validate_ok"))
     events_validated = sum(r["drv"].get("events", 0) for r in results if r["drv"].get("validate_ok"))
     obligations = lean["obligations"]
-    n_obl = len(obligations) + 1  # + the correspondence obligation
-    n_dis = sum(1 for o in obligations if o["ok"]) + (1 if (results and not diverges and not build_errors and not new_fails) else 0)
+    n_obl = len(obligations) + 1  # + the correspondence obligation (incl. the memory-order profile)
+    n_dis = sum(1 for o in obligations if o["ok"]) + (1 if (results and not diverges and not build_errors and not new_fails and not mo_bad) else 0)
     samples = []
     for o in obligations[:6]:
         samples.append({"theorem": o["name"], "axioms": o["axioms"]})
@@ -239,6 +250,8 @@ def main():
         broken.append(pe)
     if drv_error:
         broken.append("model driver does not build: " + drv_error)
+    if mo_bad:
+        broken.append("memory order weakened at an atomic site the model's SC/TSO argument relies on: " + "; ".join(mo_bad[:6]))
     for b in build_errors:
         broken.append("instrumented build failed for %s: %s" % (b["part"], b["error"][-600:]))
     if diverges:
@@ -292,6 +305,8 @@ def main():
             "samples": samples,
             "known_findings_printed": sorted(known_hits.keys()),
             "correspondence_divergences": len(diverges),
+            "memory_order_sites_checked": len(mo_obs),
+            "memory_order_weakenings": mo_bad,
             "monitor_failures": len(fails),
         },
         "assumptions": spec.get("assumptions", []),
